@@ -14,6 +14,7 @@ def units(tier):
         E("vp_main_view_int", "ArrayView<int> histories over reset/assign/copy: aliases source exactly"),
         E("vp_main_owned_int", "OwnedArray<int> histories: reset, reset(p,n), resize incl. reallocating growth, assign from std::array"),
         E("vp_main_owned_copy", "OwnedArray copy-construct / copy-assign then destroy, resize or reset the original"),
+        E("vp_main_owned_shrink", "OwnedArray shrink, then copy / grow again: sizes and contents follow the last operation"),
         E("vp_main_fixed", "FixedArray: all ctors, assignment, copies share storage and keep it alive"),
         E("vp_main_fixedview", "FixedArrayView window; copy of view keeps data alive"),
         E("vp_main_fixedview_drop", "FixedArrayView outlives the FixedArray handle it was made from"),
